@@ -777,16 +777,20 @@ class GraphParser:
                 for mem in self.family_map[name]:
                     m_info.append((mem, offset, ttype))
                     m_expr.append(f"{mem}{offset}:{ttype}")
-                this = r'\b%s%s:%s\b' % (
-                    name,
+                # NOTE: family names may contain regex special characters
+                # ("FAM+") and non-word characters ("A-FAM"): escape the name
+                # and use a lookbehind for "not a node name character" rather
+                # than "\b" to find where it starts.
+                this = r'(?<![\w\-+%%@])%s%s:%s\b' % (
+                    re.escape(name),
                     re.escape(offset),
-                    trig
+                    re.escape(trig)
                 )
                 if mem_all:
                     that = '(%s)' % '&'.join(m_expr)
                 else:
                     that = '(%s)' % '|'.join(m_expr)
-                n_expr = re.sub(this, that, n_expr)
+                n_expr = re.sub(this, lambda _: that, n_expr)
                 n_info += m_info
             else:
                 n_info += [(name, offset, trig)]
